@@ -456,6 +456,23 @@ def _nonneg_const(x):
     return isinstance(x, Term) and x.op == "const" and isinstance(x.args[0], Fraction) and x.args[0] >= 0
 
 
+def _canon_idx_term(idx):
+    """index terms modulo: flatnonzero(mask) used as an index == the mask; trailing full slices"""
+    if not isinstance(idx, Term):
+        return idx
+    if idx.op == "nonzero1":
+        return idx.args[0]
+    if idx.op == "tuple":
+        items = [z.args[0] if isinstance(z, Term) and z.op == "nonzero1" else z for z in idx.args]
+        while len(items) > 1 and _term_full_slice(items[-1]):
+            items.pop()
+        if len(items) == 1:
+            return items[0]
+        if tuple(items) != tuple(idx.args):
+            return Term("tuple", *items)
+    return idx
+
+
 def _prefix_slice(fi):
     """(axis, hi) if the frozen index is a[:hi] or a[:, :hi]"""
     def is_prefix(x):
@@ -706,6 +723,8 @@ class Normalizer:
             if isinstance(st_t, Term) and st_t.op == "store" and self.nf(st_t.args[0]) == self.nf(other) and _nonempty_guard(a[0], st_t.args[1]):
                 return self.nf(st_t)
             return P_atom(A("phi", self.freeze(a[0]), wrap(x), wrap(y)))
+        if op == "truthy" and len(a) == 1 and isinstance(a[0], Term) and a[0].op in ("lt", "le", "gt", "ge", "eq", "ne", "and", "or", "not", "truthy", "is", "isnot", "in", "notin", "bitand", "bitor", "invert", "any", "all"):
+            return self.nf(a[0])  # bool() of something that already is a truth value
         if op == "not" and isinstance(a[0], Term) and a[0].op == "not":
             return self.nf(a[0].args[0])
         if op == "getitem":
@@ -718,8 +737,7 @@ class Normalizer:
                 full = all(isinstance(z, Term) and z.op == "slice" and all(isinstance(q, Term) and q.op == "const" and q.args[0] is None for q in z.args) for z in idx.args[1:])
                 if full:
                     idx = idx.args[0]
-            if isinstance(idx, Term) and idx.op == "nonzero1":
-                idx = idx.args[0]  # a[np.flatnonzero(m)] selects the same entries as a[m]
+            idx = _canon_idx_term(idx)  # a[np.flatnonzero(m)] selects the same entries as a[m]
             # a[:h][j] = a[j] and a[:, :h][:, j] = a[:, j] for a fixed element j >= 0 (wherever defined)
             while isinstance(base, Term) and base.op == "getitem":
                 ax = _term_prefix_axis(base.args[1])
@@ -754,8 +772,15 @@ class Normalizer:
         if op == "store":
             base, idx, val = a
             # an index array obtained from a mask selects the same entries as the mask
-            if isinstance(idx, Term) and idx.op == "nonzero1":
-                idx = idx.args[0]
+            idx = _canon_idx_term(idx)
+            # Z = 0; Z[:, m] = A[:, m] @ dg(u[m])   is   A @ dg(where(m, u, 0))   (column selection)
+            if isinstance(idx, Term) and idx.op == "tuple" and len(idx.args) == 2 and _term_full_slice(idx.args[0]) and isinstance(val, Term) and val.op == "matmul" and not self.nf(base):
+                m_t = idx.args[1]
+                lhs, rhs = val.args
+                if isinstance(lhs, Term) and lhs.op == "getitem" and lhs.args[1] == idx and isinstance(rhs, Term) and rhs.op == "dg":
+                    u0 = _unmask(rhs.args[0], m_t)
+                    if u0 is not None:
+                        return self.nf(Term("matmul", lhs.args[0], Term("dg", Term("where3", m_t, u0, Term("const", Fraction(0))))))
             fi = self.freeze(idx)
             if isinstance(base, Term) and base.op == "store" and self.freeze(base.args[1]) == fi:
                 base = base.args[0]
